@@ -211,7 +211,28 @@ pub enum Edit {
     ImportFromSelf(u16),
     /// a character outside ASCII inside a quoted literal ('..'H, '..'B, ".."), at any offset
     ForeignInLiteral(u16, u16, u16),
+    /// a well-formed snippet with a semantic trap behind BEGIN: alias cycles (also used with DEFAULT
+    /// names, OPTIONAL, as list element), recursive structures, cyclic / self-referential value
+    /// assignments, unknown names, duplicate definitions
+    InsertTrap(u16),
 }
+
+const TRAPS: [&str; 12] = [
+    "Cyc-A ::= Cyc-A Use-A ::= SEQUENCE { c Cyc-A DEFAULT red }",
+    "Cyc-A ::= Cyc-B Cyc-B ::= Cyc-A Use-A ::= SEQUENCE { c Cyc-A DEFAULT red , d Cyc-B OPTIONAL }",
+    "Cyc-A ::= Cyc-B Cyc-B ::= Cyc-C Cyc-C ::= Cyc-A Use-A ::= SET { l SEQUENCE OF Cyc-B , c Cyc-C DEFAULT 5 }",
+    "Cyc-L ::= SEQUENCE OF Cyc-L",
+    "Cyc-C ::= CHOICE { a Cyc-C , b NULL }",
+    "Cyc-S ::= SET { a Cyc-S OPTIONAL , ... , b Cyc-S }",
+    "v-one INTEGER ::= v-two v-two INTEGER ::= v-one Use-V ::= INTEGER ( 0 .. v-one )",
+    "v-self INTEGER ::= v-self Use-W ::= OCTET STRING ( SIZE ( v-self ) )",
+    "Use-E ::= SEQUENCE { e Enum-Z DEFAULT nope , f Nowhere OPTIONAL }",
+    "Dup ::= BOOLEAN Dup ::= NULL Use-D ::= SEQUENCE { d Dup }",
+    "Cyc-T ::= [ 3 ] Cyc-T Use-T ::= SET { t Cyc-T , u [ 3 ] BOOLEAN }",
+    "En-Y ::= ENUMERATED { red , ... , red } Use-Y ::= SEQUENCE { y En-Y DEFAULT red }",
+];
+
+
 
 const NUMBERS: [&str; 24] = [
     "0", "1", "-1", "5", "127", "128", "-129", "255", "256", "300", "1000", "-500", "65535", "65536", "70000", "-32769", "2147483647", "2147483648", "4294967295", "4294967296", "9223372036854775807", "-9223372036854775808", "9223372036854775808",
@@ -246,6 +267,7 @@ pub fn edit_strategy() -> impl Strategy<Value = Edit> {
         4 => (any::<u16>(), any::<u16>()).prop_map(|(a, b)| Edit::ReplaceNumber(a, b)),
         2 => any::<u16>().prop_map(Edit::ImportFromSelf),
         3 => (any::<u16>(), any::<u16>(), any::<u16>()).prop_map(|(a, b, c)| Edit::ForeignInLiteral(a, b, c)),
+        3 => any::<u16>().prop_map(Edit::InsertTrap),
     ]
 }
 
@@ -298,6 +320,15 @@ pub fn apply(text: &str, edits: &[Edit]) -> String {
                 let nums: Vec<usize> = (0..n).filter(|i| is_number(&toks[*i])).collect();
                 if !nums.is_empty() {
                     toks[nums[scale(*p, nums.len() - 1)]] = NUMBERS[scale(*v, NUMBERS.len() - 1)].to_string();
+                }
+            }
+            Edit::InsertTrap(v) => {
+                if let Some(b) = toks.iter().position(|t| t == "BEGIN") {
+                    // (behind an IMPORTS clause, if there is one directly behind BEGIN)
+                    let at = if toks.get(b + 1).map(|t| t == "IMPORTS").unwrap_or(false) { toks.iter().position(|t| t == ";").map(|i| i + 1).unwrap_or(b + 1) } else { b + 1 };
+                    for (k, t) in TRAPS[scale(*v, TRAPS.len() - 1)].split_whitespace().enumerate() {
+                        toks.insert((at + k).min(toks.len()), t.to_string());
+                    }
                 }
             }
             Edit::ForeignInLiteral(p, q, v) => {
@@ -394,7 +425,7 @@ pub fn repo_modules() -> Vec<String> {
     out
 }
 
-const RULE: &str = "valid texts (generator output of the front-end profile and the literal modules of /repo/tests, read as data) with 1..4 edits from {delete / duplicate / swap / insert / replace a token, delete / insert a character, truncate at a token or byte, replace a number by an over-long one, swap two numbers, replace a number by a boundary value (reversed ranges, bounds at type limits), open a block comment, make the module import from itself, put a non-ASCII character into a quoted literal}, plus token soups over the ASN.1 vocabulary; pipeline: Tokenizer::parse -> Model::try_from -> try_resolve (and MultiModuleResolver, also with a twin module so that both import every symbol from each other) -> to_rust -> to_protobuf. Oracle: Ok or Err, no panic except the documented 'unclosed comment blocks' one when the input really has an unterminated '/*'; parse::Error::token(), when present, lies inside the input; a case running > 10 s stops the worker and is confirmed 3x in isolation. Non-trivial: the text tokenizes to >= 5 tokens and differs from the valid text it was derived from; distinct = hash of the text.";
+const RULE: &str = "valid texts (generator output of the front-end profile and the literal modules of /repo/tests, read as data) with 1..4 edits from {delete / duplicate / swap / insert / replace a token, delete / insert a character, truncate at a token or byte, replace a number by an over-long one, swap two numbers, replace a number by a boundary value (reversed ranges, bounds at type limits), open a block comment, make the module import from itself, put a non-ASCII character into a quoted literal, insert a well-formed snippet with a semantic trap (alias cycles incl. use with DEFAULT / OPTIONAL / in a list, recursive structures, cyclic value assignments, unknown names, duplicates)}, plus token soups over the ASN.1 vocabulary; pipeline: Tokenizer::parse -> Model::try_from -> try_resolve (and MultiModuleResolver, also with a twin module so that both import every symbol from each other) -> to_rust -> to_protobuf. Oracle: Ok or Err, no panic except the documented 'unclosed comment blocks' one when the input really has an unterminated '/*'; parse::Error::token(), when present, lies inside the input; a case running > 10 s stops the worker and is confirmed 3x in isolation. Non-trivial: the text tokenizes to >= 5 tokens and differs from the valid text it was derived from; distinct = hash of the text.";
 
 pub fn run(ctx: Ctx) -> i32 {
     let report = Report::new(ctx.clone(), RULE);
